@@ -5,6 +5,8 @@ import (
 	"go/ast"
 	"go/token"
 	"go/types"
+	"os"
+	"path/filepath"
 	"strings"
 	"text/template/parse"
 
@@ -54,6 +56,7 @@ func checkC10(c *Ctx) {
 
 	// ---- R5 loads.Embedded order
 	checkEmbeddedOrder(c, "C10.R5.embedded-order", ev, gen)
+	checkLoadedDocument(c, "C10.R5.loaded-document", gen)
 	checkWriteUnconditional(c, "C10.R4.document", gen)
 
 	// ---- R6 in-place compaction
@@ -136,7 +139,7 @@ func checkReadableSpec(c *Ctx, gen *packages.Package) {
 
 func checkDocLifecycle(c *Ctx, gen *packages.Package) {
 	rule := "C10.R4.document"
-	c.Rule(rule, "OrigSpec() is read once (to embed it); after analysis.Flatten the loaded document is replaced only under FlattenOpts.Expand; reloads after validation come from the same path", 3)
+	c.Rule(rule, "OrigSpec() is read once (to embed it); after analysis.Flatten the loaded document is replaced only under FlattenOpts.Expand; reloads after validation come from the same path; FlattenOpts.BasePath and .Spec are set from the current document on every run", 5)
 	info := gen.TypesInfo
 	n := 0
 	for _, fd := range load.AllFuncs(gen) {
@@ -167,6 +170,33 @@ func checkDocLifecycle(c *Ctx, gen *packages.Package) {
 	if !flattenPos.IsValid() {
 		c.Anchor(rule, "validateAndFlattenSpec › analysis.Flatten", "call not found")
 		return
+	}
+	// the per-run inputs of the flattening (base path of relative $refs, analysed spec) are set
+	// from this run's document on every run: a GenOpts used twice must not keep the first one's
+	nFlat := 0
+	goan.WalkGuards(info, fd.Body, func(nd ast.Node, guards []goan.Lit, _ []ast.Stmt) {
+		as, ok := nd.(*ast.AssignStmt)
+		if !ok || as.Pos() > flattenPos {
+			return
+		}
+		for _, l := range as.Lhs {
+			se, ok := ast.Unparen(l).(*ast.SelectorExpr)
+			if !ok || goan.LastSel(se.X) != "FlattenOpts" || (se.Sel.Name != "BasePath" && se.Sel.Name != "Spec") {
+				continue
+			}
+			nFlat++
+			var own []string
+			for _, g := range guards {
+				if !g.Early {
+					own = append(own, g.String())
+				}
+			}
+			c.Check(len(own) == 0, rule, "generator.GenOpts.validateAndFlattenSpec › FlattenOpts."+se.Sel.Name+" set on every run", c.posOf(gen, as.Pos()), "unconditional",
+				fmt.Sprintf("FlattenOpts.%s is set only under [%s]: when the options are used for a second generation, the flattening of the second spec keeps the first spec's %s, and the embedded flattened document is built from the wrong files", se.Sel.Name, strings.Join(own, " ∧ "), se.Sel.Name))
+		}
+	})
+	if nFlat < 2 {
+		c.Unk(rule, "generator.GenOpts.validateAndFlattenSpec › FlattenOpts inputs", c.posOf(gen, fd.Pos()), fmt.Sprintf("found %d stores to FlattenOpts.BasePath / FlattenOpts.Spec before analysis.Flatten, expected both", nFlat))
 	}
 	// the document variable: the first result
 	var docObj types.Object
@@ -595,5 +625,104 @@ func checkRenderedBeforePlanning(c *Ctx, rule string, gen *packages.Package) {
 		c.Check(pos.IsValid() && pos < firstWriter, rule, "generator.appGenerator.makeCodegenApp › "+doc+"() is rendered before planning", c.posOf(gen, pos),
 			"marshalled before "+c.posOf(gen, firstWriter)+" ("+firstWhy+")",
 			fmt.Sprintf("SpecDoc.%s() is marshalled at %s, after the call at %s which reaches %s: what planning writes into the loaded document (definitions of anonymous types replacing user definitions of the same name, validations removed in place) ends up in the embedded document", doc, c.posOf(gen, pos), c.posOf(gen, firstWriter), firstWhy))
+	}
+}
+
+// checkLoadedDocument: wherever generated code (standard templates and every contributed set)
+// builds the document the server serves at /swagger.json, the document handed over first —
+// the one Raw() answers — is SwaggerJSON, never the flattened one.
+func checkLoadedDocument(c *Ctx, rule string, gen *packages.Package) {
+	c.Rule(rule, "in every template set, the first argument of loads.Analyzed / loads.Embedded in generated code is built from SwaggerJSON (the document served as /swagger.json), not from FlatSwaggerJSON", 4)
+	sets := []string{""}
+	if ents, err := os.ReadDir(filepath.Join(c.RepoDir, "generator", "templates", "contrib")); err == nil {
+		for _, e := range ents {
+			if e.IsDir() {
+				sets = append(sets, e.Name())
+			}
+		}
+	}
+	seen := map[string]bool{}
+	for _, set := range sets {
+		f := c.Forest(gen, set)
+		for _, name := range f.Names() {
+			t := f.Trees[name]
+			if t == nil || t.Tree == nil || t.Tree.Root == nil {
+				continue
+			}
+			// flatten the tree to text, actions replaced by §
+			var sb strings.Builder
+			var starts []int // offset in sb → template position, by text node
+			var poss []parse.Pos
+			var walk func(l *parse.ListNode)
+			walk = func(l *parse.ListNode) {
+				if l == nil {
+					return
+				}
+				for _, nd := range l.Nodes {
+					switch x := nd.(type) {
+					case *parse.TextNode:
+						starts = append(starts, sb.Len())
+						poss = append(poss, x.Pos)
+						sb.Write(x.Text)
+					case *parse.IfNode:
+						walk(x.List)
+						walk(x.ElseList)
+					case *parse.RangeNode:
+						walk(x.List)
+						walk(x.ElseList)
+					case *parse.WithNode:
+						walk(x.List)
+						walk(x.ElseList)
+					default:
+						sb.WriteString("§")
+					}
+				}
+			}
+			walk(t.Tree.Root)
+			txt := sb.String()
+			n := 0
+			for _, fn := range []string{"loads.Analyzed(", "loads.Embedded("} {
+				from := 0
+				for {
+					i := strings.Index(txt[from:], fn)
+					if i < 0 {
+						break
+					}
+					at := from + i
+					from = at + len(fn)
+					depth, j := 0, from
+					for ; j < len(txt); j++ {
+						ch := txt[j]
+						if ch == '(' {
+							depth++
+						} else if ch == ')' {
+							if depth == 0 {
+								break
+							}
+							depth--
+						} else if ch == ',' && depth == 0 {
+							break
+						}
+					}
+					first := strings.TrimSpace(txt[from:j])
+					n++
+					key := fmt.Sprintf("%s › %s#%d", t.Asset, strings.TrimSuffix(fn, "("), n)
+					if seen[key] {
+						continue
+					}
+					seen[key] = true
+					pos := ""
+					for k := len(starts) - 1; k >= 0; k-- {
+						if starts[k] <= at {
+							pos = t.PosStr(poss[k] + parse.Pos(at-starts[k]))
+							break
+						}
+					}
+					ok := strings.Contains(first, "SwaggerJSON") && !strings.Contains(first, "FlatSwaggerJSON")
+					c.Check(ok, rule, key, pos, "first argument "+first,
+						fmt.Sprintf("the generated code loads its document from (%s): the document a generated server serves at /swagger.json is then the flattened spec (shared parameters and responses expanded, remote $refs rewritten), not the spec the code was generated from", first))
+				}
+			}
+		}
 	}
 }
